@@ -506,6 +506,60 @@ impl Model for ES {
     }
 }
 
+/// sorted constructors with a transient one whose position changes under sorting
+/// (declared first, sorted last): Alpha 0, Mid 1, Zeta 2 (transient)
+#[derive(BinaryCodec)]
+#[sorted_constructors]
+pub enum EST {
+    #[transient]
+    Zeta(u16),
+    Alpha(u8),
+    Mid,
+}
+
+impl EST {
+    pub const IDX_T: u32 = 2;
+}
+
+impl Model for EST {
+    fn arb(sh: &mut Shape) -> Self {
+        if sh.choice(2) == 0 {
+            EST::Alpha(u8::arb(sh))
+        } else {
+            EST::Mid
+        }
+    }
+    fn enc(&self, b: &mut Buf) {
+        match self {
+            EST::Alpha(v) => {
+                enc_ctor(b, 0);
+                v.enc(b);
+            }
+            EST::Mid => enc_ctor(b, 1),
+            EST::Zeta(_) => {}
+        }
+    }
+    fn dec(r: &mut Rd) -> Option<Self> {
+        let idx = dec_ctor(r)?;
+        if idx == 0 {
+            dec_v0(r)?;
+            Some(EST::Alpha(u8::dec(r)?))
+        } else if idx == 1 {
+            dec_v0(r)?;
+            Some(EST::Mid)
+        } else {
+            None
+        }
+    }
+    fn same(&self, o: &Self) -> bool {
+        match (self, o) {
+            (EST::Alpha(a), EST::Alpha(b)) => a == b,
+            (EST::Mid, EST::Mid) => true,
+            _ => false,
+        }
+    }
+}
+
 /// ES with a new constructor that sorts last (C13 extension under sorted order)
 #[derive(BinaryCodec)]
 #[sorted_constructors]
